@@ -51,7 +51,7 @@ def interleavings(n1, n2):
 
 def shards(tier):
     # the 10x10 contranominal scale: concepts with 9 neighbours met in mid-traversal
-    return e1.std_shards(tier, with_p=True, with_big=True)
+    return e1.std_shards(tier, with_p=True, with_big=True, with_hist=True)
 
 
 def check_case(case, ctr):
@@ -166,6 +166,25 @@ def check_case(case, ctr):
             if not judge(list(gd), downs[i] | downs[(i + 1) % k], 'dindex', 'downset_union',
                          seeds=[i, (i + 1) % k], note='argument list changed after the call'):
                 return V
+    # the same list OBJECT passed again after the caller changed it in place (append, clear)
+    if k >= 2 and not V:
+        for i in range(min(k, 64)):
+            j = (i + 1) % k
+            mine = [al[i]]
+            for step_, (expu, expd) in enumerate(((ups[i], downs[i]),
+                                                  (ups[i] | ups[j], downs[i] | downs[j]),
+                                                  (set(), set()))):
+                ctr['calls'] += 2
+                if not judge(list(lat.upset_union(mine)), expu, 'index', 'upset_union',
+                             seeds=[i, j], note=f'same list object, edited in place, call {step_}'):
+                    return V
+                if not judge(list(lat.downset_union(mine)), expd, 'dindex', 'downset_union',
+                             seeds=[i, j], note=f'same list object, edited in place, call {step_}'):
+                    return V
+                if step_ == 0:
+                    mine.append(al[j])
+                else:
+                    mine.clear()
     return V
 
 
